@@ -1,3 +1,4 @@
 CONSTANTS Scope = "quick" Mutant = "none"
 SPECIFICATION Spec
 INVARIANT Emit
+CONSTRAINT EmitOnly
